@@ -55,9 +55,20 @@ def app_script():
 
 
 # -- conversions ----------------------------------------------------------------------------------
-def q_from4(a4):
+def q_from4(a4, layout="C"):
+    """Quaternion array with the given logical content; layout 'F' = Fortran-ordered view (a transposed
+    buffer), 'S' = strided view into a larger buffer, 'C' = contiguous."""
     import quaternion
-    return quaternion.as_quat_array(np.ascontiguousarray(np.asarray(a4, dtype=float)))
+    a4 = np.asarray(a4, dtype=float)
+    if layout == "F" and a4.ndim == 3:
+        base = quaternion.as_quat_array(np.ascontiguousarray(np.transpose(a4, (1, 0, 2))))
+        return base.T
+    if layout == "S" and a4.ndim == 3:
+        m, n = a4.shape[:2]
+        big = np.zeros((2 * m, 2 * n, 4))
+        big[::2, ::2] = a4
+        return quaternion.as_quat_array(big)[::2, ::2]
+    return quaternion.as_quat_array(np.ascontiguousarray(a4))
 
 
 def q_to4(q):
